@@ -60,11 +60,14 @@ func (c *Config) fill() {
 
 // ParkPoint describes where a task is waiting for the scheduler.
 type ParkPoint struct {
-	Kind  string          // kv | lock | rlock | yield | op | feed | net | start | custom
-	Op    string          // operation name
-	Key   string          // storage key, mutex name, ...
-	Class string          // abstraction of Key used for hashing and fault addressing
-	Alts  []string        // fault alternatives this point can honour
+	Kind  string   // kv | lock | rlock | yield | op | feed | net | start | custom
+	Op    string   // operation name
+	Key   string   // storage key, mutex name, ...
+	Class string   // abstraction of Key used for hashing and fault addressing
+	Alts  []string // fault alternatives this point can honour
+	// AltOK, when set, says whether a fault alternative would have an effect right now (a fault that cannot do
+	// anything is not drawn and not counted)
+	AltOK func(alt string) bool
 	Ready func() bool     // nil: always runnable
 	Opts  func() []string // nil: {"go"}; normal alternatives (e.g. which feed queue)
 	KVIdx int             // index of this storage op within its task (set by Park for Kind kv)
@@ -636,6 +639,9 @@ func (s *Sim) pickAlt(t *Task) string {
 		return alt
 	}
 	for _, a := range pp.Alts {
+		if pp.AltOK != nil && !pp.AltOK(a) {
+			continue
+		}
 		if p := s.Cfg.FaultPermille[a]; p > 0 && s.rng.Chance(p) {
 			s.noteFault(t, a)
 			return a
